@@ -272,7 +272,7 @@ func voterCond(cd engine.Cond, lhs string) (bool, int) {
 		if s == engine.EQ {
 			return true, engine.True
 		}
-		if s == engine.LT|engine.GT {
+		if isNE(s) {
 			return true, engine.False
 		}
 	}
